@@ -488,10 +488,23 @@ Lemma spec_ok_no_panic i o : spec_ok i o = true -> returns_normally o.
 Proof.
   destruct o as [| |f l outs err]; cbn; try discriminate.
   - intros _. split; [discriminate|]. intros; discriminate.
-  - intros H. apply andb_prop in H as [H _]. split; [discriminate|].
+  - intros H. apply andb_prop in H as [H _]. apply andb_prop in H as [H _]. split; [discriminate|].
     intros f' l' outs' e' oc E Hin. inversion E; subst.
     rewrite forallb_forall in H. specialize (H _ Hin). cbn in H.
     destruct (oc_um oc); congruence.
+Qed.
+
+Lemma spec_ok_no_nil i f l outs e : spec_ok i (ORet f l outs e) = true -> ~ In None outs.
+Proof.
+  cbn. intros H Hin. apply andb_prop in H as [H _]. apply andb_prop in H as [_ H].
+  rewrite forallb_forall in H. specialize (H _ Hin). discriminate H.
+Qed.
+
+(* no nil outcome pointer is ever handed back *)
+Theorem no_nil_outcomes i f l outs e :
+  wf i = true -> model i = ORet f l outs e -> ~ In None outs.
+Proof.
+  intros Hwf Hm. apply (spec_ok_no_nil i f l outs e). rewrite <- Hm. apply model_spec_ok; assumption.
 Qed.
 
 (* ---------- skip-level statements produce a usable outcome ---------- *)
